@@ -125,6 +125,13 @@ def run(repo, R):
         R.check(not bad, "GUARD", f.site, f"moment_coord / moment_orders validated before use ({n_cases} argument kinds)",
                 "the validation before the recursion does not accept exactly a 3-vector origin and an (N, 3) integer order table: " + "; ".join(bad[:4]),
                 where=f.where(guards[0]), expected="raise for every other kind of argument", found=bad[:6])
+    # the property is stated for Cartesian, spherical and mixed bases and with a transformation: the assembly of this operator's base
+    # class (norm once per index, own Cartesian->spherical matrix, segment-major blocks, transformation on every index) is part of it
+    from ..report import compose as _compose
+    from . import c09 as _c09
+    _bases = ('base_two_symm',)
+    _compose(R, "C09", _c09.run, repo, keep=lambda fd: any(b_ in (fd.where or "") or b_ in fd.site for b_ in _bases) or "spherical.py" in (fd.where or ""),
+             why="results for spherical / mixed / transformed bases are assembled by " + ", ".join(_bases))
     R.assumptions += ["Obara-Saika recurrence for multipole moments (Helgaker 9.3.3)", "assembly (C09) leaves trailing kernel axes untouched and last"]
     return ("STENCIL + AXTYPE on the moment kernel chain with a symbolic origin and a symbolic order table: the eight stores that raise "
             "the moment order are compared coefficient by coefficient with the Obara-Saika moment recurrence (coupling to both angular "
